@@ -88,6 +88,20 @@ def do_run(ids):
         det = (rc == 1 and bool(viol))
         meta["check_result"] = {"cmd": "./check %s --tier quick" % pid, "exit": rc, "detected": det,
                                 "line": viol[0] if viol else out.strip().split("\n")[-1][-200:], "wall_s": round(time.time() - t0, 1)}
+        # what noticed it: broken obligations / ties, correspondence differences, oracle keys (from the replay file)
+        by = {}
+        try:
+            rp = viol[0].split("replay=")[1].split()[0]
+            r = json.load(open(os.path.join(ROOT, rp)))
+            keys = {}
+            for f in r.get("failures", []):
+                keys[f["key"]] = keys.get(f["key"], 0) + 1
+            by = {"oracle_keys": keys, "broken_obligations": (r.get("broken_obligations") or r.get("theorems_or_ties") or [])[:6],
+                  "tie_broken": (r.get("tie_broken") or [])[:3],
+                  "correspondence_differences": sorted({d.get("what", "?") for d in (r.get("disagreements") or r.get("correspondence_differences") or [])})[:6]}
+        except Exception as e:
+            by = {"error": repr(e)}
+        meta["detected_by"] = by
         json.dump(meta, open(os.path.join(d, "meta.json"), "w"), indent=1)
         res[sid] = "DETECTED" if det else "MISSED (exit %d)" % rc
         print(sid, res[sid], "|", meta["check_result"]["line"][:150])
